@@ -131,7 +131,7 @@ private theorem slotName_spec {tok k : Str} (h : slotName tok = some k) :
     · rename_i hc
       simp only [Bool.and_eq_true, beq_iff_eq] at hc
       cases h
-      exact ⟨by rw [List.dropLast_append_getLast? _ hc.1], hc.2⟩
+      exact ⟨by rw [List.cons_append, dropLast_append_of_getLast? hc.1], hc.2⟩
     · cases h
   · cases h
 
@@ -197,7 +197,9 @@ private theorem Except_map_map {ε α β γ} (f : α → β) (g : β → γ) (x 
 private theorem fmtGo_escBraces (kw : List (Str × Str)) (s rest : Str) :
     fmtGo kw .text (escBraces s ++ rest) = (fmtGo kw .text rest).map (s ++ ·) := by
   induction s with
-  | nil => cases fmtGo kw .text rest <;> rfl
+  | nil =>
+    show fmtGo kw .text rest = _
+    cases fmtGo kw .text rest <;> rfl
   | cons c s ih =>
     unfold escBraces
     split
@@ -226,8 +228,8 @@ theorem C12_message_render (ps : List Piece) (kw : List (Str × Str))
     | ph k =>
       obtain ⟨hs, hl⟩ := hk (.ph k) (by simp) k rfl
       obtain ⟨v, hv⟩ := Option.isSome_iff_exists.1 hl
-      rw [Piece.render, List.cons_append, List.append_assoc, List.singleton_append,
-        fmtGo_slot kw _ hs hv, ih']
+      simp only [Piece.render, List.append_assoc, List.singleton_append]
+      rw [fmtGo_slot kw _ hs hv, ih']
       simp [Piece.value, hv, Except.map]
 
 /-- the rendered message then travels as one argument (composition with `C12_git_commit_argv`) -/
